@@ -114,6 +114,54 @@ def run(prog: Program, L: Ledger) -> None:
                 vocab.bind("self.atoms.get_momenta()", setmom)
             elif fn == "self.atoms.set_positions":
                 setpos = (st, t.tr(st.value.args[0]))
+    # derived attributes: `self.X` read by the step formula but computed elsewhere from other
+    # attributes (a cache).  The cached definition is substituted, and every writer of one of its
+    # source attributes must refresh it — otherwise the step uses stale data.
+    from ..dataflow import self_attr_assignments
+
+    assigns = self_attr_assignments(prog, fb)
+    disp_expr = sp.sympify(t.env.get("displacement", 0))
+    for txt in [k for k, s_ in list(vocab.unknown.items()) if k.startswith("self.") and s_ in disp_expr.free_symbols]:
+        attr = txt.split(".", 1)[1]
+        defs_ = [(f_, st_, v_) for f_, st_, v_ in assigns.get(attr, []) if v_ is not None]
+        if len(defs_) != 1:
+            continue
+        f_def, st_def, v_def = defs_[0]
+        try:
+            val = Translator(vocab).tr(v_def)
+        except Unsupported:
+            continue
+        disp_expr = disp_expr.subs(vocab.unknown[txt], val)
+        t.env["displacement"] = disp_expr
+        for c_ in list(vocab.unknown):
+            pass
+        sources = {n_.attr for n_ in ast.walk(v_def) if isinstance(n_, ast.Attribute) and norm(n_.value) == "self"}
+        # property-backed sources: the attribute a property getter returns
+        extra = set()
+        for src in list(sources):
+            g = prog.lookup_method(fb, src)
+            if g is not None and g.kind == "property":
+                for r_ in g.body():
+                    if isinstance(r_, ast.Return) and isinstance(r_.value, ast.Attribute) and norm(r_.value.value) == "self":
+                        extra.add(r_.value.attr)
+        sources |= extra
+        refreshers = {f_def.qualname}
+        for src in sorted(sources):
+            for wf, wst, wv in assigns.get(src, []):
+                if wf.name == "__init__":
+                    continue
+                body_assigns = {n_.attr for x_ in ast.walk(wf.node) if isinstance(x_, (ast.Assign, ast.AnnAssign)) for n_ in ([*x_.targets] if isinstance(x_, ast.Assign) else [x_.target]) if isinstance(n_, ast.Attribute) and norm(n_.value) == "self"}
+        for src in sorted(sources):
+            for wf, wst, wv in assigns.get(src, []):
+                if wf.name == "__init__":
+                    continue
+                writes = {n_.attr for x_ in walk_no_nested(wf.node) if isinstance(x_, (ast.Assign, ast.AnnAssign)) for n_ in (x_.targets if isinstance(x_, ast.Assign) else [x_.target]) if isinstance(n_, ast.Attribute) and norm(n_.value) == "self"}
+                called = {c_.func.attr for c_ in calls_in(wf.node) if isinstance(c_.func, ast.Attribute) and norm(c_.func.value) == "self"}
+                set_props = {n_.attr for x_ in walk_no_nested(wf.node) if isinstance(x_, ast.Assign) for n_ in x_.targets if isinstance(n_, ast.Attribute) and norm(n_.value) == "self"}
+                fresh = attr in writes or f_def.name in called or (f_def.kind == "setter" and f_def.name in set_props)
+                L.check(fresh, "B", f"{wf.qualname}:stale-{attr}", f"{wf.module.relpath}:{wst.lineno}",
+                        f"{wf.qualname} changes `self.{src}`, from which the cached `self.{attr}` (defined in {f_def.qualname}) is computed, but does not refresh the cache: ForceBias.step then scales displacements with stale data",
+                        f"call {wf.name}(...) after the last assignment that computed self.{attr}: displacement components exceed delta·(m_min/m)^p of the current masses", f"{attr}<-{src}")
     z, D, Mmin, M, p, x = (vocab.sym(n, **a) for n, a in (("z", {"real": True}), ("D", {"positive": True}), ("Mmin", {"positive": True}), ("M", {"positive": True}), ("p", {"real": True}), ("x", {"real": True})))
     if "displacement" not in t.env or setpos is None or setmom is None:
         raise AnalysisError("ForceBias.step: displacement / set_momenta / set_positions not found")
